@@ -157,12 +157,24 @@ def handle : Driver.Handler := fun op j =>
     let excl ← optList j "exclude"
     -- coverage only: the full flag of every kernel call of this run (what `readCsv` passes to `readFile`, replayed)
     let use := fieldsToUse names incl excl
-    let flags := flagsOf file crs names.length (columnOffsets (names.map (fun k => (kindOf schema k).fieldSize)) crs)
-      (use.map (fun k => names.idxOf k)) (use.map (fun k => ({ kind := kindOf schema k } : Imp))) fuel
-    pure <| Driver.outE (fun (o : COut) =>
-      Json.mkObj [("rows", toJson o.rows), ("order", toJson (o.fields.map (·.name))),
-                  ("fields", Json.mkObj (o.fields.map (fun f => (f.name, typedJson f.imp)))), ("flags", toJson flags)])
-      (readCsv file names schema incl excl crs fuel)
+    let offs := columnOffsets (names.map (fun k => (kindOf schema k).fieldSize)) crs
+    let im := use.map (fun k => names.idxOf k)
+    let flags := flagsOf file crs names.length offs im (use.map (fun k => ({ kind := kindOf schema k } : Imp))) fuel
+    match readCsv file names schema incl excl crs fuel with
+    | .ok o =>
+      pure <| Driver.okJson <|
+        Json.mkObj [("rows", toJson o.rows), ("order", toJson (o.fields.map (·.name))),
+                    ("fields", Json.mkObj (o.fields.map (fun f => (f.name, typedJson f.imp)))), ("flags", toJson flags)]
+    | .error e =>
+      -- the import raises. Oracle / coverage glue for the harness (`Reported` of Props/C0506.lean): the kernel blocks of this
+      -- run — `written_row_count` and full flag of every kernel call — are those of the same driver with the same budgets
+      -- and importers that reject nothing (indexed strings); the harness locates the first block with a rejected cell in it
+      let plain := use.map (fun _ => ({ kind := .indexed } : Imp))
+      let blocks : Json := match readFile file crs names.length offs im plain fuel with
+        | .ok r => toJson r.calls
+        | .error _ => Json.null
+      pure <| Json.mkObj [("err", Json.str e.tag), ("calls", blocks),
+                          ("flags", toJson (flagsOf file crs names.length offs im plain fuel))]
   | _ => none
 
 end Driver.C05
